@@ -10,8 +10,12 @@
 (*               with-block                                                               *)
 (*     alive_owned   process/remote workers ever handed to or created by the pool whose   *)
 (*               child process is alive in the OS process table after the operation       *)
-(*     live_unreg    live child processes that belong to no worker in pool.workers        *)
-(*     extra     results returned by this run that are not results of this run's inputs   *)
+(*     live_unreg    live child processes that belong to no worker in pool.workers and    *)
+(*               were not in that condition before this operation (caused by it)          *)
+(*     extra     inputs handed to workers / results returned by this run that do not      *)
+(*               belong to this run's inputs                                              *)
+(*     spoiled   1 iff a plain run on an open pool raised although a registered worker    *)
+(*               that was alive before the run is still alive after it                    *)
 (*     dead_got_work  workers that were dead (OS) before this run and were handed inputs  *)
 (*     restarted_no_work  live workers restarted since the previous run that were handed  *)
 (*               no input although inputs outnumbered the workers                         *)
@@ -22,7 +26,7 @@ IsAdd(op) == op \in {"add", "addfail", "dup", "attach"}
 IsRun(op) == op \in {"run", "runp"}
 
 AllDeadS(r, s)          == (s.closing = "T" /\ s.outcome = "ok" /\ r.scn.force # "false") => s.alive_owned = 0
-RunIsolatedS(r, s)      == IsRun(s.op) => s.extra = 0
+RunIsolatedS(r, s)      == IsRun(s.op) => (s.extra = 0 /\ s.spoiled = 0)
 NoWorkToDeadS(r, s)     == IsRun(s.op) => s.dead_got_work = 0
 RestartedGetWorkS(r, s) == (IsRun(s.op) /\ s.outcome = "ok") => s.restarted_no_work = 0
 NoLeakS(r, s)           == (IsAdd(s.op) /\ s.outcome = "raised") => s.live_unreg = 0
